@@ -211,7 +211,7 @@ def world(only=None):
     from exabgp.version import json as json_version
     from exabgp.version import text_v4
 
-    w = dict(Message=Message, Notify=Notify, Attribute=Attribute, UNSET=Negotiated.UNSET, PeerContext=PeerContext,
+    w = dict(Message=Message, Notify=Notify, Attribute=Attribute, PeerContext=PeerContext,
              UpdateHandler=UpdateHandler, sessions={}, order=[n for n in SESSIONS if only in (None, n)])
     for name, s in SESSIONS.items():
         if name not in w['order']:
@@ -231,7 +231,6 @@ def world(only=None):
         w['sessions'][OPEN_SESSION] = dict(neighbor=nb, neg=Negotiated.UNSET, cfg=_cfg)
     w['json'] = Response.JSON(json_version)
     w['text'] = Response.V4.Text(text_v4)
-    w['ctx'] = {}
     _W = w
     new_run_objects(w)
     return w
@@ -259,8 +258,6 @@ def _exc(w, e) -> str:
 
 def _struct_update(msg) -> str:
     """Force everything lazy on a decoded UPDATE and write it down."""
-    from exabgp.bgp.message.update.attribute import Attribute  # noqa: F401
-
     parsed = msg.data
     ann = [(r.nlri.extensive(), str(r.nexthop), str(r.nlri.family().afi_safi())) for r in parsed.announces]
     wd = [(n.extensive(), str(n.family().afi_safi())) for n in parsed.withdraws]
@@ -1109,7 +1106,6 @@ class Part:
 def _record(H: Harness, part: Part, mode: str, seq, mism, info) -> None:
     part.counters['executions'] += 1
     part.counters['transitions'] += 1
-    part.counters['messages_decoded'] += len(seq)
     if info['collide']:
         part.counters['nontrivial'] += 1
     part.outcomes.add(info['outcome'])
@@ -1143,8 +1139,10 @@ def _chunk(args):
 
     for idx in range(lo, hi):
         H.run_prefix(mode, prefix_of(idx, length - 1), visit, audit=(idx % AUDIT_EVERY == 0))
+        part.counters['messages_decoded'] += length - 1 + NLET
         if idx % AUDIT_EVERY == 0:
             part.counters['audited_prefixes'] += 1
+            part.counters['messages_decoded'] += NLET * length + (length - 1) * NLET
     stray = H.stray_state()
     if stray:
         raise core.HarnessError(f'process-wide state outside the calibrated hot set changed: {stray[:8]}')
@@ -1164,6 +1162,8 @@ def _expand(args):
 
     for h in hists:
         H.run_prefix(mode, list(h), visit)
+        if record:
+            part.counters['messages_decoded'] += len(h) + NLET
     stray = H.stray_state()
     if stray:
         raise core.HarnessError(f'process-wide state outside the calibrated hot set changed: {stray[:8]}')
@@ -1182,7 +1182,7 @@ def _alone_task(args):
 BOUNDS = {
     # tier: (full enumeration: {mode: max length}, dedup BFS depth)
     'quick': ({'on': 3, 'off': 3}, 4),
-    'thorough': ({'on': 4, 'off': 3}, 6),
+    'thorough': ({'on': 4, 'off': 3}, 9),
 }
 
 
@@ -1242,8 +1242,15 @@ def run(ctx: core.Ctx) -> None:
                 total = NLET ** (length - 1)   # prefixes; each is extended by every letter
                 size = max(8, min(400, total // 96 + 1))
                 tasks += [(mode, length, lo, min(total, lo + size)) for lo in range(0, total, size)]
+        done = 0
         for part in pool.imap(_chunk, tasks):
             part.merge_into(ctx)
+            done += 1
+            if ctx.budget_s and ctx.elapsed() > ctx.budget_s and done < len(tasks):
+                ctx.cap(f'full enumeration stopped after {done} of {len(tasks)} chunks (budget {ctx.budget_s}s); next chunk was {tasks[done]}')
+                pool.terminate()
+                pool = mp.get_context('fork').Pool(min(16, os.cpu_count() or 1))
+                break
         phases['full_enumeration'] = round(ctx.elapsed(), 1)
         ctx.coverage_extra['full_enumeration'] = {m: {'max_length': full[m], 'sequences': sum(NLET ** k for k in range(1, full[m] + 1))}
                                                   for m in CACHING}
@@ -1270,6 +1277,8 @@ def run(ctx: core.Ctx) -> None:
                 nxt.sort()
                 frontier = nxt
                 per_depth[f'depth{d}'] = len(seen)
+            # an empty frontier: every reachable canonical process-wide state has been extended by every letter
+            per_depth['closed'] = not frontier
             ctx.coverage_extra.setdefault('bfs_process_states', {})[mode] = per_depth
             for st in seen:
                 ctx.add_to_set('process_states', st)
@@ -1279,6 +1288,9 @@ def run(ctx: core.Ctx) -> None:
         pool.close()
         pool.join()
     ctx.sample({'sequence': [letter_name(x) for x in seq_of(NLET ** 3 // 2 + 7, 3)]})
+    ctx.sample({'sequence': [letter_name(x) for x in seq_of(NLET ** 3 // 3 + 11, 3)]})
+    for sig in sorted(ctx.viol)[:3]:
+        ctx.sample({'mismatch': sig, 'witness': ctx.viol[sig]['case']})
 
 
 def replay(case):
